@@ -234,6 +234,174 @@ def eval_save(state, arg):
     return res
 
 
+# ---------------------------------------------------------------- relationships edited through the reader
+def _flat_runs(x):
+    out = []
+
+    def go(v):
+        if isinstance(v, str):
+            out.append(v)
+        else:
+            for y in v:
+                go(y)
+    go(x)
+    return out
+
+
+def eval_retarget(state, arg):
+    """C10 / C16: a hyperlink relationship is re-pointed through File.rels_element (the live XML that save()
+    writes), possibly after File.rels was read.  Then (a) rendering the part shows the relationship's target AS
+    IT IS NOW: it equals what a fresh reader makes of the same package with that relationship changed on disk
+    (C10: TARGET is that relationship's target); (b) the reader is saved, and saving the saved file again
+    reproduces the content part (C16).  (round-8 seeds C10-rels-cache-stale-after-edit, C16-rels-cache-merge-stale)"""
+    stream, sub = arg
+    rng = random.Random(sub)
+    kn = docgen.Knobs(links=0.6, link_rid_reused=0.2) if hasattr(docgen.Knobs, "link_rid_reused") else docgen.Knobs(links=0.6)
+    pkg = docgen.gen_package(random.Random(sub), kn)
+    pair = None
+    if rng.random() < 0.5 and "word/_rels/document.xml.rels" in pkg.rels:
+        # two ADJACENT hyperlinks with relationships of their own and different targets (they stay apart);
+        # re-pointing one to the other's target makes them one link for every later reading of the part
+        doc = pkg.parts["word/document.xml"]
+        body = [e for e in doc if isinstance(e.tag, str) and e.tag.endswith("}body")]
+        if body:
+            W, R = docgen.NS_T["w"], docgen.NS_T["r"]
+            par = etree.Element(f"{{{W}}}p", nsmap={"w": W, "r": R})
+            pair = ("rIdAdjA", "rIdAdjB")
+            for rid, txt, tgt in ((pair[0], "one", "http://adjacent.example/a"), (pair[1], "two", "http://adjacent.example/b")):
+                h = etree.SubElement(par, f"{{{W}}}hyperlink", {f"{{{R}}}id": rid})
+                t = etree.SubElement(etree.SubElement(h, f"{{{W}}}r"), f"{{{W}}}t")
+                t.text = txt
+                pkg.rels["word/_rels/document.xml.rels"].append((rid, docgen.REL_T + "hyperlink", tgt, True))
+            body[0].insert(rng.randint(0, len([e for e in body[0] if isinstance(e.tag, str) and e.tag.endswith("}p")])), par)
+            pkg.features.add("adjacent_links_two_rels")
+    data = pkg.to_bytes()
+    res = {"stream": stream, "sub": sub, "features": sorted(set(pkg.features)), "fails": [], "corr": None,
+           "key": hashlib.sha256(data).hexdigest()[:16]}
+    html = bool(rng.getrandbits(1))
+    tmp = tempfile.mkdtemp(prefix="d2p_ret_")
+    try:
+        from docx2python.docx_reader import DocxReader
+        with warnings.catch_warnings():
+            warnings.simplefilter("ignore")
+            rd = DocxReader(io.BytesIO(data), html=html)
+            try:
+                cands = []
+                try:
+                    files = rd.files_of_type()
+                except Exception:  # noqa: BLE001
+                    res["features"].append("unreadable")
+                    return res
+                for f in files:
+                    rels = f.rels_element
+                    if rels is None:
+                        continue
+                    ext = [x for x in rels if isinstance(x.tag, str) and x.get("TargetMode") == "External"
+                           and str(x.get("Type", "")).endswith("/hyperlink")]
+                    if ext:
+                        cands.append((f, ext))
+                if not cands:
+                    res["features"].append("no_external_link")
+                    return res
+                f, ext = rng.choice(cands)
+                if pair is not None and rng.random() < 0.8:
+                    dd = [c for c in cands if c[0].path == "word/document.xml"]
+                    if dd:
+                        f, ext = dd[0]
+                if rng.random() < 0.6:
+                    res["features"].append("rels_read_first")
+                    _ = f.rels
+                loaded_before = rng.random() < 0.4
+                targets = [x.get("Target") for x in ext]
+                rel = rng.choice(ext)
+                if loaded_before:
+                    # the part is already merged under the old targets: only re-point a relationship whose old
+                    # target no other relationship shares, to a fresh one (which links merge cannot change)
+                    res["features"].append("edit_after_load")
+                    try:
+                        _ = f.root_element
+                    except Exception:  # noqa: BLE001
+                        res["features"].append("unreadable")
+                        return res
+                    # (an EMPTY target makes the link merge like an unresolved one - known deviation of the merge
+                    # key - so re-pointing it would change what merges as well)
+                    uniq = [x for x in ext if targets.count(x.get("Target")) == 1 and x.get("Target")]
+                    if not uniq:
+                        res["features"].append("no_unique_target")
+                        return res
+                    rel = rng.choice(uniq)
+                    new = "http://retargeted.example/%d" % rng.randrange(10**6)
+                elif pair is not None and f.path == "word/document.xml" and rng.random() < 0.7:
+                    res["features"].append("retarget_adjacent_pair")
+                    a, b = [next(x for x in ext if x.get("Id") == i) for i in pair]
+                    rel, new = (a, b.get("Target")) if rng.random() < 0.5 else (b, a.get("Target"))
+                elif len(ext) >= 2 and rng.random() < 0.6:
+                    res["features"].append("retarget_to_shared")
+                    new = rng.choice([x for x in ext if x is not rel]).get("Target")
+                else:
+                    new = "http://retargeted.example/%d" % rng.randrange(10**6)
+                rid = rel.get("Id")
+                rel.set("Target", new)
+                try:
+                    got = _flat_runs(f.get_text(f.root_element))
+                except Exception as ex:  # noqa: BLE001
+                    res["features"].append("unreadable")
+                    return res
+                # the same package with that relationship changed on disk, read afresh
+                dirname, _, filename = f.path.rpartition("/")
+                rels_path = "/".join([x for x in (dirname, "_rels", filename + ".rels") if x])
+                zin = zipfile.ZipFile(io.BytesIO(data))
+                bio = io.BytesIO()
+                hit = False
+                with zipfile.ZipFile(bio, "w") as zout:
+                    for info in zin.infolist():
+                        blob = zin.read(info)
+                        if info.filename == rels_path:
+                            r0 = etree.fromstring(blob)
+                            for x in r0:
+                                if isinstance(x.tag, str) and x.get("Id") == rid and x.get("TargetMode") == "External":
+                                    x.set("Target", new)
+                                    hit = True
+                            blob = etree.tostring(r0, xml_declaration=True, encoding="UTF-8", standalone=True)
+                        zout.writestr(info, blob)
+                if not hit:
+                    res["features"].append("rels_member_not_found")
+                    return res
+                rd2 = DocxReader(io.BytesIO(bio.getvalue()), html=html)
+                try:
+                    f2 = [x for x in rd2.files_of_type() if x.path == f.path][0]
+                    exp = _flat_runs(f2.get_text(f2.root_element))
+                finally:
+                    rd2.close()
+                res["features"].append("retargeted")
+                if got != exp:
+                    d = next((i for i, (a, b) in enumerate(zip(got, exp)) if a != b), min(len(got), len(exp)))
+                    res["fails"].append(["retarget_render",
+                                         f"{f.path}: after re-pointing {rid} to {new!r} the part renders run {d} as "
+                                         f"{(got[d] if d < len(got) else None)!r}; a fresh reader of the same package "
+                                         f"gives {(exp[d] if d < len(exp) else None)!r}"])
+                out1, out2 = os.path.join(tmp, "o1.docx"), os.path.join(tmp, "o2.docx")
+                rd.save(out1)
+            finally:
+                rd.close()
+            rd3 = DocxReader(out1, html=html)
+            try:
+                rd3.save(out2)
+            finally:
+                rd3.close()
+            m1 = {i.filename: b for i, b in zip_members(open(out1, "rb").read())}
+            m2 = {i.filename: b for i, b in zip_members(open(out2, "rb").read())}
+            if _tree(m1.get(f.path, b"<x/>")) != _tree(m2.get(f.path, b"<y/>")):
+                res["fails"].append(["retarget_resave", f"{f.path} changes when the file saved after re-pointing {rid} "
+                                                        "is saved again"])
+    except Exception as ex:  # noqa: BLE001
+        import traceback
+        res["fails"].append(["retarget_raised", f"{type(ex).__name__}: {ex} {traceback.format_exc()[-300:]}"])
+    finally:
+        shutil.rmtree(tmp, ignore_errors=True)
+    return res
+
+
 def _tree(blob: bytes):
     try:
         return common.enc_tree(etree.fromstring(blob))
